@@ -1,6 +1,8 @@
 """C10 - whatever the repository editor signs and writes, the client loads back unchanged."""
 import hashlib
 import json
+import os
+import re
 from lib import common as C, scen, edprog
 
 NAMES = ["file.txt", "with space.bin", "ünï.dat", "dir/sub/f", "dir/other", "z", "big"]
@@ -664,6 +666,23 @@ def run(chk):
                                                "final_keys": [1, 2, 3], "tree_corpus": ["two-of-three", "under-signed", "outside-paths"][which]}))
             cases.append({"p": 10, "docs": s.docs, "root": r, "program": prog})
             continue
+        if 26 <= i < 30:
+            # corpus: the two programs of findings/ - two different roles named B in different branches (F19: the
+            # editor must refuse), a role named like the next root file (F20, known finding without consistent
+            # snapshots)
+            cs0 = i % 2 == 0
+            fn = "C10-duplicate-role-name.json" if i < 28 else "C10-next-root-role-name.json"
+            prog = json.load(open(os.path.join(C.VERIF, "findings", fn)))["program"]
+            t = track(prog, len(prog) - 2)
+            it = Intent()
+            it.top = dict(t.top.targets)
+            it.roles = {r.name: {"targets": dict(r.targets), "parent": r.parent.name, "keys": r.keyids,
+                                 "threshold": r.threshold, "version": r.version} for r in t.all_roles()}
+            it.versions = (t.top.version, t.sv, t.tsv)
+            r = s.root(cs=cs0)
+            infos.append(("program", it, cs0, {"inadequate": None, "final_keys": [1, 2, 3], "findings_corpus": fn}))
+            cases.append({"p": 10, "docs": s.docs, "root": r, "program": prog})
+            continue
         if rng.random() < 0.3:
             prog, info = cross_party(rng, i)
             r = s.root(cs=rng.random() < 0.5)
@@ -753,8 +772,10 @@ def run(chk):
                     chk.broken("correspondence: the files RepositoryEditor::sign + write produced cannot be abstracted (%s)" % e,
                                dict(full, model_case=tc))
         if load[0] != 0:
+            rootlike = (not cs) and kind == "program" and any(re.fullmatch(r"[0-9]+\.root", n) for n in it.roles)
             chk.violation("the editor signed and wrote the repository without error, but the client refuses it: %s%s" % (
-                load, " (%s)" % info["inadequate"] if isinstance(info, dict) and info.get("inadequate") else ""), full)
+                load, " (%s)" % info["inadequate"] if isinstance(info, dict) and info.get("inadequate") else ""), full,
+                known_class="role_named_like_root_file" if rootlike else None)
             continue
         view = load[1]
         if kind == "program":
